@@ -219,7 +219,9 @@ def check_return_sites(ctx):
     ctx.check(lid in dom.get(cfg.node_of(r), ()), "ORD-applicable", f"{f.qualname}|return at +{r.lineno - f.node.lineno} follows the applicability filter",
               ctx.where(f.module, r), "dominated by the inapplicable-style removal", "an ISD element is returned without passing the removal of inapplicable styles")
   body = unparse(lp)
-  ok = "list(isd_element.iter_styles())" in unparse(lp.iter) and "not isd_element.is_style_applicable" in body and "set_style(style_prop, None)" in body.replace(unparse(lp.target), "style_prop")
+  it_txt = unparse(lp.iter)
+  materialised = it_txt.startswith(("list(", "tuple(")) or isinstance(lp.iter, ast.ListComp)     # the styles are copied before any is removed
+  ok = materialised and "isd_element.iter_styles()" in it_txt and "not isd_element.is_style_applicable" in body and "set_style(style_prop, None)" in body.replace(unparse(lp.target), "style_prop")
   ctx.check(ok, "ORD-applicable", f"{f.qualname}|removes exactly the inapplicable styles", ctx.where(f.module, lp), "for each style: if not applicable -> set_style(p, None)",
             "the applicability filter no longer removes exactly the styles for which is_style_applicable() is false")
   # every property gets a value on styled kinds (initial loop over ALL, unguarded except for Br/Text)
